@@ -114,8 +114,8 @@ func corrC18(r *Run) {
 		}
 	}
 	// structured TPDUs
-	nBase := r.N(6, 40)
-	nMut := r.N(10, 40)
+	nBase := r.N(12, 60)
+	nMut := r.N(14, 40)
 	for _, kind := range smsKinds {
 		for b := 0; b < nBase; b++ {
 			base := smsBase(r.Rng, kind)
@@ -140,7 +140,7 @@ func corrC18(r *Run) {
 		}
 	}
 	// random octet strings, SC length biased small so that the type peek succeeds
-	nRand := r.N(500, 6000)
+	nRand := r.N(1500, 12000)
 	for i := 0; i < nRand; i++ {
 		n := r.Rng.Intn(48)
 		in := r.Rng.Bytes(n)
